@@ -349,6 +349,30 @@ func checkPaging(n *Node, st *Stats, rt *rapid.T) string {
 		byHash[r.Hash] = append(byHash[r.Hash], key(r))
 		byHeight[r.Height] = append(byHeight[r.Height], key(r))
 	}
+	// what an address query must return is derived from the action rows themselves — the sender and
+	// every output address of each action — not from the lookup table the API reads through
+	byAddrRows := map[string]map[string]bool{}
+	addExp := func(addr, k string) {
+		if byAddrRows[addr] == nil {
+			byAddrRows[addr] = map[string]bool{}
+		}
+		byAddrRows[addr][k] = true
+	}
+	for _, r := range rows {
+		addExp(r.From, key(r))
+		if r.Outputs != "" {
+			var outs []struct {
+				Address string `json:"address"`
+			}
+			if json.Unmarshal([]byte(r.Outputs), &outs) == nil {
+				for _, o := range outs {
+					if o.Address != "" {
+						addExp(AddrHexOf(o.Address), key(r))
+					}
+				}
+			}
+		}
+	}
 	lrows, err := n.P.Pegnet.DB.Query(`SELECT l.address, l.entry_hash, l.tx_index, b.height FROM pn_history_lookup l, pn_history_txbatch b WHERE b.entry_hash = l.entry_hash`)
 	if err != nil {
 		return "harness: " + err.Error()
@@ -362,6 +386,18 @@ func checkPaging(n *Node, st *Stats, rt *rapid.T) string {
 		}
 	}
 	lrows.Close()
+	for a, exp := range byAddrRows {
+		var l []string
+		for k := range exp {
+			l = append(l, k)
+		}
+		got := append([]string(nil), byAddr[a]...)
+		sort.Strings(l)
+		sort.Strings(got)
+		if strings.Join(l, ",") != strings.Join(got, ",") {
+			return fmt.Sprintf("address %s…: the recorded actions name it in %d actions (as sender or recipient), the address index links it to %d (first difference: %s)", a[:12], len(l), len(got), firstDiff(l, got))
+		}
+	}
 	cmp := func(what string, want, got []string, count int) string {
 		w := append([]string(nil), want...)
 		g := append([]string(nil), got...)
